@@ -36,8 +36,8 @@ CONSTANTS
     GridStates,   \* coarse-grid encoded states the ideal solver may return
     MaxChain      \* number of conditional runs in a chain (model)
 
-VARIABLES phase, sys, kshift, init, lnK, c0, x, conds, nconds, solved, succ, iter, maxiter, runs, out
-vars == <<phase, sys, kshift, init, lnK, c0, x, conds, nconds, solved, succ, iter, maxiter, runs, out>>
+VARIABLES phase, sys, kshift, init, lnK, c0, x, conds, nconds, solved, succ, iter, maxiter, runs, out, sexp
+vars == <<phase, sys, kshift, init, lnK, c0, x, conds, nconds, solved, succ, iter, maxiter, runs, out, sexp>>
 
 LIMB == 1000000
 BIG == 2000000000
@@ -54,14 +54,16 @@ Ions(i) == {j \in 1..NS : sys.nu[i][j] # 0 /\ j \notin sys.solid}
 
 BaseK == << <<18, -17>>, <<55, -11>>, <<45, -8>>, <<47, -12>>, <<1, 4>>, <<3, 3>>, <<3, 7>>, <<1, 6>>,
             <<2, 17>>, <<18, -6>>, <<32, -8>>, <<18, -11>>, <<56, -13>>, <<35, -12>>, <<56, 8>>,
-            <<18, 10>>, <<29, 9>> >>
+            <<18, 10>>, <<29, 9>>,
+            <<33, -9>>, <<5, -18>>, <<1, -10>>, <<1, -10>>, <<1, 10>>, <<1, -4>>, <<85, -3>>, <<1, 6>>,
+            <<1, 10>>, <<1, -6>> >>
 Water == <<555, -1>>
 ASSUME Len(BaseK) = NRx
 
 Init ==
     /\ phase = "pick" /\ sys = NoSys /\ kshift = <<>> /\ init = <<>> /\ lnK = <<>> /\ c0 = NoVec /\ x = NoVec
     /\ conds = <<>> /\ nconds = <<>> /\ solved = FALSE /\ succ = FALSE /\ iter = 0 /\ maxiter = 20
-    /\ runs = 0 /\ out = NoOut
+    /\ runs = 0 /\ out = NoOut /\ sexp = 0
 
 ------------------------------------------------------------------------------
 (* (1) the problem pool *)
@@ -78,13 +80,13 @@ DeterminedSys(si) == si.rankB + Len(si.rs) = Len(si.ss)
 PickSystem(S) ==
     /\ phase = "pick" /\ Admissible(S) /\ DeterminedSys(SysInfo(S))
     /\ sys' = SysInfo(S) /\ phase' = "shift"
-    /\ UNCHANGED <<kshift, init, lnK, c0, x, conds, nconds, solved, succ, iter, maxiter, runs, out>>
+    /\ UNCHANGED <<kshift, init, lnK, c0, x, conds, nconds, solved, succ, iter, maxiter, runs, out, sexp>>
 
 ShiftK(d) ==
     /\ phase = "shift" /\ Len(kshift) < NR
     /\ kshift' = Append(kshift, d)
     /\ phase' = IF Len(kshift') = NR THEN "init" ELSE "shift"
-    /\ UNCHANGED <<sys, init, lnK, c0, x, conds, nconds, solved, succ, iter, maxiter, runs, out>>
+    /\ UNCHANGED <<sys, init, lnK, c0, x, conds, nconds, solved, succ, iter, maxiter, runs, out, sexp>>
 
 \* initial composition: water 55.5, the solid from SolidInits, solutes by a pattern over InitSeq
 \* every element of the system is present initially
@@ -100,7 +102,7 @@ PickInit(a, b, sol) ==
        IN  /\ ElementsPresent(ini) = TRUE     \* (compared with TRUE: evaluated, not enumerated)
            /\ init' = ini
     /\ phase' = "posed"
-    /\ UNCHANGED <<sys, kshift, lnK, c0, x, conds, nconds, solved, succ, iter, maxiter, runs, out>>
+    /\ UNCHANGED <<sys, kshift, lnK, c0, x, conds, nconds, solved, succ, iter, maxiter, runs, out, sexp>>
 
 Posed == phase = "posed"
 ProblemK == [i \in 1..NR |-> <<BaseK[sys.rs[i]][1], BaseK[sys.rs[i]][2] + kshift[i]>>]
@@ -117,7 +119,7 @@ RateNum == 19
 RateDen == 20
 RateOK(nok, n) == n > 0 /\ RateDen * nok >= RateNum * n
 
-GenPickHomog == \E S \in SUBSET HomogIds : Cardinality(S) \in 1..MaxHomog /\ PickSystem(S)
+GenPickHomog == phase = "pick" /\ \E k \in 1..MaxHomog : \E S \in kSubset(k, HomogIds) : PickSystem(S)
 GenPickSalt == phase = "pick" /\ \E r \in SaltIds, W \in SaltWith : PickSystem({r} \cup W)
 GenShiftK == \E d \in KShifts : ShiftK(d)
 GenPickInit == \E p \in InitPatterns, sol \in SolidInits : PickInit(p[1], p[2], sol)
@@ -221,18 +223,39 @@ BwOK(i, v, verdict) ==
     \/ AbsI(u) <= BandZero
     \/ verdict = (u > 0)
 
-\* two results agree: every concentration within 1e-6 of the scale-relative amount or 1e-3 relative
+\* The bracketing scalar solver (brentq on the reaction coordinate) locates the coordinate to an
+\* ABSOLUTE tolerance (scipy xtol = 2e-12 mol/l, taken four-fold): every concentration carries that
+\* absolute uncertainty.  In units of the encoding: 8e-12 / 10^(sexp-12) (+ rounding).
+AbsTolUnits == IF sexp >= 0 THEN 2 ELSE 8 * IPow(10, -sexp) + 2
+\* a concentration within ten tolerances of zero (the solver may return exactly 0.0 there) cannot
+\* be held to a quotient at all
+NearZero(w, j) == w.h[j] < 1 /\ AbsTolUnits * 10 >= w.l[j]
+\* micro-ln uncertainty of concentration j of w caused by AbsTolUnits
+LnSlack(w, j) ==
+    IF w.h[j] >= 1 THEN (AbsTolUnits \div w.h[j]) + 1
+    ELSE (((AbsTolUnits * 1000) \div w.l[j]) + 1) * 1000
+QEqKAbs(i, w) ==
+    LET cols == Participants(i) IN
+    \/ \E j \in cols : NearZero(w, j)
+    \/ /\ AllPosIn(w, cols)
+       /\ AbsI(LnQ(i, w, cols) - lnK[i]) <=
+              BandLnQ + SumSeq([j \in 1..NS |-> IF j \in cols THEN AbsI(sys.nu[i][j]) * LnSlack(w, j) ELSE 0])
+\* Genuine, with Q = K held to the solver's absolute accuracy
+GenuineAbs(w) == NonNeg(w) /\ KeepsTotals(w) /\ \A i \in Hom : QEqKAbs(i, w)
+
+\* two results agree: every concentration within the absolute band (units) or 1e-3 relative
 BandClose == 1000
-Close(v, w) ==
+Close(v, w, band) ==
     \A j \in 1..NS :
-        \/ AbsI(LinDiff([t \in 1..NS |-> IF t = j THEN 1 ELSE 0], v, [t \in 1..NS |-> IF t = j THEN 1 ELSE 0], w)) <= 1000
+        \/ AbsI(LinDiff([t \in 1..NS |-> IF t = j THEN 1 ELSE 0], v, [t \in 1..NS |-> IF t = j THEN 1 ELSE 0], w)) <= band
         \/ v.pos[j] /\ w.pos[j] /\ AbsI(v.ln[j] - w.ln[j]) <= BandClose
 
 ------------------------------------------------------------------------------
 (* (2) the solver run *)
-Pose(S, lnk, v0) ==
+\* se: decimal exponent of the encoding scale (one unit = 10^(se - 12) mol/l)
+Pose(S, lnk, v0, se) ==
     /\ phase = "pick" /\ Admissible(S)
-    /\ sys' = SysInfo(S) /\ lnK' = lnk /\ c0' = v0 /\ phase' = "idle"
+    /\ sys' = SysInfo(S) /\ lnK' = lnk /\ c0' = v0 /\ sexp' = se /\ phase' = "idle"
     /\ Len(lnk) = Cardinality(S)
     /\ UNCHANGED <<kshift, init, x, conds, nconds, solved, succ, iter, maxiter, runs, out>>
 
@@ -245,20 +268,20 @@ Begin(v, given, cnd, mx) ==
     /\ x' = v /\ iter' = 0 /\ maxiter' = mx /\ solved' = FALSE /\ nconds' = <<>> /\ runs' = runs + 1
     /\ IF given THEN Len(cnd) = Len(PT) /\ conds' = cnd /\ phase' = "solve"
        ELSE conds' = AllFalse /\ phase' = "eval"
-    /\ UNCHANGED <<sys, kshift, init, lnK, c0, succ, out>>
+    /\ UNCHANGED <<sys, kshift, init, lnK, c0, succ, out, sexp>>
 
 \* the next condition to evaluate is number Len(nconds)+1; which rule applies depends on conds
 EvalFw(i, vd, verdict) ==
     /\ phase = "eval" /\ Len(nconds) < Len(PT) /\ PT[Len(nconds) + 1] = i /\ ~conds[Len(nconds) + 1]
     /\ FwOK(i, x, vd, verdict)
     /\ nconds' = Append(nconds, verdict)
-    /\ UNCHANGED <<phase, sys, kshift, init, lnK, c0, x, conds, solved, succ, iter, maxiter, runs, out>>
+    /\ UNCHANGED <<phase, sys, kshift, init, lnK, c0, x, conds, solved, succ, iter, maxiter, runs, out, sexp>>
 
 EvalBw(i, verdict) ==
     /\ phase = "eval" /\ Len(nconds) < Len(PT) /\ PT[Len(nconds) + 1] = i /\ conds[Len(nconds) + 1]
     /\ BwOK(i, x, verdict)
     /\ nconds' = Append(nconds, verdict)
-    /\ UNCHANGED <<phase, sys, kshift, init, lnK, c0, x, conds, solved, succ, iter, maxiter, runs, out>>
+    /\ UNCHANGED <<phase, sys, kshift, init, lnK, c0, x, conds, solved, succ, iter, maxiter, runs, out, sexp>>
 
 Evaluated == phase = "eval" /\ Len(nconds) = Len(PT)
 
@@ -266,7 +289,7 @@ Evaluated == phase = "eval" /\ Len(nconds) = Len(PT)
 Adopt ==
     /\ Evaluated /\ ~solved
     /\ conds' = nconds /\ nconds' = <<>> /\ phase' = "solve"
-    /\ UNCHANGED <<sys, kshift, init, lnK, c0, x, solved, succ, iter, maxiter, runs, out>>
+    /\ UNCHANGED <<sys, kshift, init, lnK, c0, x, solved, succ, iter, maxiter, runs, out, sexp>>
 
 \* the numerical solver returns vn for the system selected by cnd (several NumSys may be chained)
 SolveWith(cnd, vn, ok) ==
@@ -275,23 +298,23 @@ SolveWith(cnd, vn, ok) ==
     /\ cnd = conds
     /\ x' = vn /\ succ' = ok /\ solved' = TRUE /\ nconds' = <<>>
     /\ phase' = "eval"
-    /\ UNCHANGED <<sys, kshift, init, lnK, c0, conds, iter, maxiter, runs, out>>
+    /\ UNCHANGED <<sys, kshift, init, lnK, c0, conds, iter, maxiter, runs, out, sexp>>
 
 Switch ==
     /\ Evaluated /\ solved /\ nconds # conds
     /\ conds' = nconds /\ nconds' = <<>> /\ iter' = iter + 1 /\ solved' = FALSE
     /\ phase' = "solve"
-    /\ UNCHANGED <<sys, kshift, init, lnK, c0, x, succ, maxiter, runs, out>>
+    /\ UNCHANGED <<sys, kshift, init, lnK, c0, x, succ, maxiter, runs, out, sexp>>
 
 Terminate ==
     /\ Evaluated /\ solved /\ nconds = conds
     /\ phase' = "term"
-    /\ UNCHANGED <<sys, kshift, init, lnK, c0, x, conds, nconds, solved, succ, iter, maxiter, runs, out>>
+    /\ UNCHANGED <<sys, kshift, init, lnK, c0, x, conds, nconds, solved, succ, iter, maxiter, runs, out, sexp>>
 
 GiveUp ==
     /\ phase = "solve" /\ iter >= maxiter
     /\ phase' = "fail"
-    /\ UNCHANGED <<sys, kshift, init, lnK, c0, x, conds, nconds, solved, succ, iter, maxiter, runs, out>>
+    /\ UNCHANGED <<sys, kshift, init, lnK, c0, x, conds, nconds, solved, succ, iter, maxiter, runs, out, sexp>>
 
 \* the public result.  Only "success and sane" is a claim.  judged: TRUE for the library's own
 \* formulations (the claim implies Genuine), FALSE for a deliberately wrong stub formulation (the claim
@@ -304,23 +327,23 @@ Report(vr, ok, sn, exc, isnan, judged) ==
             /\ (ok /\ sn /\ judged) => (~isnan /\ Genuine(vr))
     /\ out' = [x |-> vr, ok |-> ok, sane |-> sn, exc |-> exc]
     /\ phase' = "done"
-    /\ UNCHANGED <<sys, kshift, init, lnK, c0, x, conds, nconds, solved, succ, iter, maxiter, runs>>
+    /\ UNCHANGED <<sys, kshift, init, lnK, c0, x, conds, nconds, solved, succ, iter, maxiter, runs, sexp>>
 
-\* a second, independent solver (bracketing on the reaction coordinate) on a single-equilibrium problem
-\* (its accuracy is absolute in the reaction coordinate, so it is held to the totals and to agreement
-\* with the judged result, not to relative accuracy of trace species)
+\* a second, independent solver (bracketing on the reaction coordinate) on a single-equilibrium
+\* problem: its own output must be genuine (non-negative, same totals, Q = K to its absolute accuracy)
+\* and it must agree with a result the library reported as success and sane
 Bracket(w) ==
     /\ phase = "done" /\ ~out.exc
-    /\ NonNeg(w) /\ KeepsTotals(w)
-    /\ (out.ok /\ out.sane) => Close(out.x, w)
+    /\ GenuineAbs(w) = TRUE      \* (compared with TRUE: evaluated as an expression, short-circuit)
+    /\ (out.ok /\ out.sane) => Close(out.x, w, IF AbsTolUnits > 1000 THEN AbsTolUnits ELSE 1000)
     /\ phase' = "checked"
-    /\ UNCHANGED <<sys, kshift, init, lnK, c0, x, conds, nconds, solved, succ, iter, maxiter, runs, out>>
+    /\ UNCHANGED <<sys, kshift, init, lnK, c0, x, conds, nconds, solved, succ, iter, maxiter, runs, out, sexp>>
 
 ------------------------------------------------------------------------------
 (* the switching machine with an IDEAL solver on a coarse grid (EqSolve_MC): the exact         *)
 (* switching rules (strict supersaturation, amount >= 0) and a solver that returns any grid    *)
 (* state solving the selected system                                                          *)
-GenPose == \E p \in GridProblems : Pose(p.S, p.lnK, p.c0)
+GenPose == \E p \in GridProblems : Pose(p.S, p.lnK, p.c0, 0)
 GenBegin ==
     /\ runs < MaxChain
     /\ \/ phase = "idle" /\ Begin(c0, FALSE, <<>>, 20)
